@@ -23,11 +23,16 @@ func init() {
 	darwinRules["C09"] = runC09Darwin
 }
 
-// contentExceptions: reviewed origins of content-dependent non-retryable errors (reason each).
-var contentExceptions = map[string]string{
-	"(*packets.FrameParser).getParser#errorf(getParser: buffer was empty)":       "infeasible: ReadAndParse returns on n == 0 before parsing (premise verified by dominance on every run)",
-	"(*packets.FrameParser).GetIPPair#errorf(GetIPPair: unexpected IP layer)":    "infeasible after Parse succeeded: checkLayers admits exactly the IP layer types GetIPPair handles (premise verified on every run)",
-	"packets.ReadAndParse#errorf(ConnHandle Read() returned 0)":            "a Source contract breach, not packet content; that no module Source returns a zero count for content reasons is decided by R09.1c",
+// contentExceptions: reviewed functions that create a content-dependent non-retryable error, with the number of such creation
+// sites confirmed by reading and the reason. The key is the creating function, not the message text (rewording a message does
+// not change behaviour); an additional site in the same function raises the count and is reported.
+var contentExceptions = map[string]struct {
+	n   int
+	why string
+}{
+	"(*packets.FrameParser).getParser": {1, "empty buffer: infeasible, ReadAndParse returns on n == 0 before parsing (premise verified by dominance on every run)"},
+	"(*packets.FrameParser).GetIPPair": {1, "unexpected IP layer: infeasible after Parse succeeded, checkLayers admits exactly the IP layer types GetIPPair handles (premise verified on every run)"},
+	"packets.ReadAndParse":             {1, "zero-length read: a Source contract breach, not packet content; that no module Source returns a zero count for content reasons is decided by R09.1c"},
 }
 
 // notSupportedAllowed: the two capability verdicts the property / C20 allow to end a SACK run.
@@ -121,6 +126,7 @@ func checkErrClasses(c *Ctx, ea *ErrAnalysis, rfs []*ssa.Function, rule string) 
 		roots []string
 	}
 	byOrigin := map[string]*agg{}
+	excSeen := map[string]map[string]bool{}
 	for _, rf := range rfs {
 		fn := core.FuncName(rf)
 		classes := ea.Summary(rf).sorted()
@@ -173,9 +179,15 @@ func checkErrClasses(c *Ctx, ea *ErrAnalysis, rfs []*ssa.Function, rule string) 
 		case e.Cause == "state":
 			R.Info(rule, key, e.Pos, ofn, "depends on driver state only; no byte string influences it; "+reach)
 		case e.Cause == "content" || e.Cause == "guard":
-			if why, ok := contentExceptions[e.Origin]; ok {
-				R.OK(rule, key, e.Pos, ofn, "reviewed exception: "+why)
-				continue
+			if ex, ok := contentExceptions[ofn]; ok {
+				if excSeen[ofn] == nil {
+					excSeen[ofn] = map[string]bool{}
+				}
+				excSeen[ofn][e.Origin] = true
+				if len(excSeen[ofn]) <= ex.n {
+					R.OK(rule, key, e.Pos, ofn, "reviewed exception: "+ex.why)
+					continue
+				}
 			}
 			kind := "a decoder error on the packet's bytes"
 			if e.Cause == "guard" {
@@ -688,17 +700,19 @@ func checkStateDeref(c *Ctx) {
 
 // ---- R09.3(b): compiler bounds-check-elimination oracle ----
 
-// bceTable: reviewed unproven bounds checks on the inbound path, keyed by function + expression (one invariant each).
+// bceTable: reviewed unproven bounds checks on the inbound path, keyed by function + the shape of the expression (one invariant
+// each). Local identifiers are replaced by $1, $2, ... in order of appearance so that renaming a variable is not a change; field
+// names, literals and operators stay, so that indexing something else or by something else is.
 var bceTable = map[string]string{
-	"packets.ReadAndParse|buffer[:n]":                         "n is the count returned by Read on that very buffer (Source contract)",
-	"(*packets.afPacketSource).Read|buf[:n]":                  "n is the count os.File.Read returned for buf",
-	"(*packets.FrameParser).GetIPPair|p.Layers[0]":            "only evaluated to format the message of the infeasible default branch",
-	"(*packets.FrameParser).GetICMPInfo|p.Layers[1]":          "only evaluated to format the message of the default branch; len(Layers) >= 2 after Parse succeeded",
-	"(*packets.FrameParser).GetIPLayer|p.Layers[0]":           "guarded by len(p.Layers) < expectedLayerCount just above (constant 2)",
-	"(*packets.FrameParser).GetTransportLayer|p.Layers[1]":    "guarded by len(p.Layers) < expectedLayerCount just above (constant 2)",
-	"(*sack.sackDriver).findMatchingProbe|s.sendTimes[relSeq]": "only called by getRTTFromRelSeq after relSeq was range-checked against MaxTTL; slice length int(MaxTTL)+1 (C19 R19.2 decides that length)",
-	"common.TracerouteParallel$1|results[probe.TTL]":          "probe validated against MaxTTL (R03.1); table length int(MaxTTL)+1 (R03.2)",
-	"common.TracerouteSerial|results[probe.TTL]":              "probe validated against MaxTTL (R03.1); table length int(MaxTTL)+1 (R03.2)",
+	"packets.ReadAndParse|$1[:$2]":                         "n is the count returned by Read on that very buffer (Source contract)",
+	"(*packets.afPacketSource).Read|$1[:$2]":                  "n is the count os.File.Read returned for buf",
+	"(*packets.FrameParser).GetIPPair|$1.Layers[0]":            "only evaluated to format the message of the infeasible default branch",
+	"(*packets.FrameParser).GetICMPInfo|$1.Layers[1]":          "only evaluated to format the message of the default branch; len(Layers) >= 2 after Parse succeeded",
+	"(*packets.FrameParser).GetIPLayer|$1.Layers[0]":           "guarded by len(p.Layers) < expectedLayerCount just above (constant 2)",
+	"(*packets.FrameParser).GetTransportLayer|$1.Layers[1]":    "guarded by len(p.Layers) < expectedLayerCount just above (constant 2)",
+	"(*sack.sackDriver).findMatchingProbe|$1.sendTimes[$2]": "only called by getRTTFromRelSeq after relSeq was range-checked against MaxTTL; slice length int(MaxTTL)+1 (C19 R19.2 decides that length)",
+	"common.TracerouteParallel$1|$1[$2.TTL]":          "probe validated against MaxTTL (R03.1); table length int(MaxTTL)+1 (R03.2)",
+	"common.TracerouteSerial|$1[$2.TTL]":              "probe validated against MaxTTL (R03.1); table length int(MaxTTL)+1 (R03.2)",
 }
 
 var bceLine = regexp.MustCompile(`^(.+\.go):(\d+):(\d+): Found (IsInBounds|IsSliceInBounds)`)
@@ -819,12 +833,12 @@ func (c *Ctx) locate(file string, line, col int) (string, string) {
 				case *ast.IndexExpr:
 					lp := c.P.Fset.Position(x.Lbrack)
 					if lp.Line == line && (expr == "" || lp.Column == col || p.Column == col) {
-						expr = types.ExprString(x)
+						expr = exprShape(x)
 					}
 				case *ast.SliceExpr:
 					lp := c.P.Fset.Position(x.Lbrack)
 					if lp.Line == line && (expr == "" || lp.Column == col || p.Column == col) {
-						expr = types.ExprString(x)
+						expr = exprShape(x)
 					}
 				case *ast.FuncDecl, *ast.FuncLit:
 					best = n
@@ -923,4 +937,30 @@ func loopOfHeader(h *ssa.BasicBlock) map[*ssa.BasicBlock]bool {
 		}
 	}
 	return loop
+}
+
+// exprShape renders an expression with its free identifiers (not field selectors, not builtins) replaced by $1, $2, ...
+func exprShape(x ast.Expr) string {
+	str := types.ExprString(x)
+	sel := map[*ast.Ident]bool{}
+	ast.Inspect(x, func(n ast.Node) bool {
+		if se, ok := n.(*ast.SelectorExpr); ok {
+			sel[se.Sel] = true
+		}
+		return true
+	})
+	var names []string
+	seen := map[string]bool{}
+	ast.Inspect(x, func(n ast.Node) bool {
+		if id, ok := n.(*ast.Ident); ok && !sel[id] && !seen[id.Name] && types.Universe.Lookup(id.Name) == nil {
+			seen[id.Name] = true
+			names = append(names, id.Name)
+		}
+		return true
+	})
+	for i, n := range names {
+		re := regexp.MustCompile(`(^|[^.\w$])` + regexp.QuoteMeta(n) + `\b`)
+		str = re.ReplaceAllString(str, "${1}$$"+strconv.Itoa(i+1))
+	}
+	return str
 }
